@@ -213,6 +213,19 @@ def translate_cwksp_free():
     return clears
 
 
+def translate_dict_repeat():
+    """which symbols ZSTD_dictNCountRepeat inspects: the header of its `for` loop, as a Lean list expression over the required maximum m"""
+    zc = read("lib/compress/zstd_compress.c")
+    b = func_body(zc, r"static\s+FSE_repeat\s+ZSTD_dictNCountRepeat\s*\([^)]*\)\s*\{") or ""
+    b = re.sub(r"/\*.*?\*/", " ", b, flags=re.S)
+    m = re.search(r"for\s*\(\s*s\s*=\s*(\d+)\s*;\s*s\s*(<=|<)\s*maxSymbolValue\s*;\s*(?:\+\+s|s\+\+)\s*\)", b)
+    if not m or "normalizedCounter[s] == 0" not in " ".join(b.split()):
+        return "[] /- untranslated loop -/"
+    start, rel = int(m.group(1)), m.group(2)
+    e = "List.range (m + 1)" if rel == "<=" else "List.range m"
+    return e if start == 0 else "(%s).drop %d" % (e, start)
+
+
 def lean_int(v):
     return "(%d)" % v if v < 0 else str(v)
 
@@ -298,6 +311,11 @@ def emit(tables, cps, dps):
     w += "def freeClearsDescriptor : Bool := %s\n" % ("true" if translate_cwksp_free() else "false")
     w += "\nend ZstdVerif.Gen.Cwksp\n"
     files["Cwksp.lean"] = w
+    dr = hdr + "namespace ZstdVerif.Gen.DictRepeat\n\n"
+    dr += "/-- symbols whose normalised count ZSTD_dictNCountRepeat inspects, for a required maximum symbol `m` (translated from the loop header) -/\n"
+    dr += "def inspected (m : Nat) : List Nat := %s\n" % translate_dict_repeat()
+    dr += "\nend ZstdVerif.Gen.DictRepeat\n"
+    files["DictRepeat.lean"] = dr
     return files
 
 
